@@ -310,7 +310,7 @@ def gen_op(rng, s: Shadow, used: set) -> dict | None:
         return {"op": k, "dim": free_name, "params": [rng.choice([1, 2, 3, 4]) + i * 5 for i in range(n)], "axis": rng.randint(0, s.nd),
                 "values": ([10 * i for i in range(n)] if rng.random() < 0.5 else None)}
     if k == "map_gen":
-        n = rng.randint(2, 3)
+        n = rng.choice([1, 2, 2, 3, 3])
         return {"op": k, "dim": free_name, "n": n, "values": [f"g{i}" for i in range(n)]}
     return None
 
@@ -359,11 +359,13 @@ def evaluate_graph(graph) -> dict[int, Any]:
             inputs[iname] = pv[src.name] if isinstance(pv, dict) else pv
         call_args = [inputs[a] if isinstance(a, str) and a in inputs else a for a in args]
         res = func(*call_args, **kwargs)
-        if len(node.outputs) > 1:
+        import inspect
+        if len(node.outputs) > 1 or inspect.isgenerator(res):
+            # a generator's values are what it yields, also when only one output is declared
             seq = list(res)
             if len(seq) != len(node.outputs):
                 raise ValueError(f"node {node.name} declared {len(node.outputs)} outputs, generator produced {len(seq)}")
-            res = {o: v for o, v in zip(node.outputs, seq)}
+            res = {o: v for o, v in zip(node.outputs, seq)} if len(node.outputs) > 1 else seq[0]
         vals[k] = res
         return res
 
